@@ -23,6 +23,10 @@ pub trait CopyOps<T> : TooDeeOpsMut<T> {
     fn copy_from_slice(&mut self, src: &[T]) where T: Copy {
         let cols = self.num_cols();
         assert_eq!(cols * self.num_rows(), src.len());
+        if cols == 0 {
+            // nothing to copy, and `chunks_exact(0)` would panic
+            return;
+        }
         for (d, s) in self.rows_mut().zip(src.chunks_exact(cols)) {
             d.copy_from_slice(s)
         }
@@ -42,6 +46,10 @@ pub trait CopyOps<T> : TooDeeOpsMut<T> {
     fn clone_from_slice(&mut self, src: &[T]) where T: Clone {
         let cols = self.num_cols();
         assert_eq!(cols * self.num_rows(), src.len());
+        if cols == 0 {
+            // nothing to clone, and `chunks_exact(0)` would panic
+            return;
+        }
         for (d, s) in self.rows_mut().zip(src.chunks_exact(cols)) {
             d.clone_from_slice(s)
         }
